@@ -769,7 +769,12 @@ fn run_case(line: &str, sink: &mut Sink, tags: &str) -> String {
                         match b {
                             Ok(b) => bs.push(b),
                             Err(e) => {
-                                oracle.push(format!("ocf round trip: reader {}", err_class(e)));
+                                // does the same file read back correctly as ONE batch?
+                                let one = ReaderBuilder::new().with_batch_size(1 << 20).build(std::io::Cursor::new(bytes.clone())).ok().and_then(|r| r.collect::<Result<Vec<_>, _>>().ok()).and_then(|bs| rows_of_batches(&top, &bs).ok());
+                                if one.as_ref() == Some(&all_rows) && has(&S::Rec(top.clone()), &|x: &S| matches!(x, S::Union(_))) {
+                                    finding = " finding:union-multibatch";
+                                }
+                                oracle.push(format!("ocf round trip (batch_size 7, {} rows): reader {}; single-batch read ok={}", all_rows.len(), err_class(e), one.as_ref() == Some(&all_rows)));
                                 failed = true;
                                 break;
                             }
@@ -862,7 +867,9 @@ fn gen_schema(rng: &mut Rng, depth: usize, allow_opt: bool, allow_union: bool) -
         7 => S::Fixed(*rng.pick(&[1usize, 2, 4, 12, 16])),
         8 => S::Enum(1 + rng.usize(5)),
         9 => {
-            if rng.chance(1, 4) { S::Null } else { S::Long }
+            // Avro `null` as a type of its own is generated only as a union branch: the reader
+            // refuses a null-typed field nested in a record / array / map (non-nullable Null child)
+            if !allow_opt && !allow_union && rng.chance(1, 3) { S::Null } else { S::Long }
         }
         10 | 11 if allow_opt => {
             let inner = gen_schema(rng, depth - 1, false, false);
